@@ -296,7 +296,7 @@ def main():
                   "htslib/pysam BGZF reader (tell/seek/readline), zlib/gzip.open: foreign code, assumed to implement the interface (strictly increasing offsets, seek returns the record); checked by this correspondence only"]
     ck.assumptions = ["pysam.libcbgzf.BGZFile and gzip.open return the same bytes as the plain file; tell() before a record is strictly increasing; seek(tell()) returns that record"]
     ck.canon = ["index / .gsi offsets resolved to record ordinals per file before comparing", "stat report compared without blank lines", "order_gfa outputs keyed by chromosome (the CSV file name differs for a .gfa.gz input: contents compared)"]
-    ck.lean_build(["Gaftools.Props.C17", "Gaftools.Props.C17b"])
+    ck.lean_build(["Gaftools.Props.C17", "Gaftools.Props.C17b", "Gaftools.Props.Cli"])
     ck.audit("C17.lean")
     rng = ck.rng
     quick = ck.tier == "quick"
@@ -348,6 +348,10 @@ def main():
         for _ in range(1 if quick else 4):
             big_selection_case(ck, rng, tmp)
         empty_gaf_case(ck, rng, tmp)
+        # the command-line layer every sub-command is reached through (argparse tables, validate, dispatch, exit statuses):
+        # Model/Cli.lean, theorems Props/Cli.lean (Audit/C17_extra.lean), compared with the real gaftools.__main__.main
+        import p_cli
+        p_cli.cli_check(ck, tmp, 3000 if quick else 30000)
     finally:
         shutil.rmtree(tmp, ignore_errors=True)
     ck.rule = "generated graph + GAF (1500 padded records > 64 KiB = several BGZF blocks; smaller files; one file with reads for realign) run through index, view (nodes/region/format/whole), sort(+.gsi), stat, phase, realign, find_path, order_gfa under the four {plain,BGZF} x {plain,gzip} combinations; non-trivial = GAF of >= 2 BGZF blocks or a gzip-compressed graph"
